@@ -290,7 +290,7 @@ func ext۰reflect۰Value۰Len(fr *frame, args []value) value {
 	case []value:
 		return len(v)
 	case symString:
-		return len(v.b)
+		return strLen(v)
 	case *omap:
 		return v.len()
 	default:
